@@ -552,6 +552,9 @@ func (w *World) exec(l Line) (res string) {
 		return fmt.Sprintf("r=ok next=%d", next)
 	case "dropcoll":
 		b := w.handles[l.str("via", "h0")]
+		if b == nil {
+			return "r=harness-nohandle"
+		}
 		sc := w.scopes[l.Pos[0]]
 		err := b.DropDataStore(sgbucket.DataStoreNameImpl{Scope: sc[0], Collection: sc[1]})
 		return "r=" + errClass(err)
